@@ -232,6 +232,8 @@ impl Write for BaseStream {
 }
 
 fn read_timeout(stream: &mut impl Read, buf: &mut [u8], timeout: &Option<mpsc::Sender<()>>) -> io::Result<usize> {
+    #[cfg(kani)]
+    return crate::verif::read_no_watchdog(stream, buf, timeout);
     match stream.read(buf) {
         Ok(0) => {
             #[cfg(unix)]
